@@ -321,6 +321,14 @@ def run_case(case, ctx):
     f = create_Multi_Range_Potential_Form(*defs)
     v = f(s + 0.25)
     ctx.cls("ambiguous_duplicate_observed:%s" % ("first" if abs(v - poly(c, s + 0.25, 0)) < 1e-9 else "second"))
+    # Which of two ranges with the SAME marker and start applies is not fixed by the statement - but "the result does not
+    # depend on the order in which the ranges were listed" is: both listings must be the same function
+    f2 = create_Multi_Range_Potential_Form(*reversed(defs))
+    for r_ in ([s] if m == ">=" else []) + [s + 0.25, s + 1e-7]:
+      ctx.count("duplicate_slot_points")
+      if f(r_) != f2(r_):
+        ctx.violation("order_dependence", "two ranges '%s%s': listed A,B the value at r=%r is %r, listed B,A it is %r" % (m, s, r_, f(r_), f2(r_)), what="order_dependence", mech="identical_marker_and_start")
+        break
   ctx.count("contract_range_search", _contracts.counts.get("range_search", 0) - before)
   for cname, msg, _ in _contracts.failures[nf0:nf0 + 3]:
     ctx.violation("contract", "%s: %s" % (cname, msg), what="contract", contract=cname)
